@@ -47,6 +47,7 @@ def dispatch (cmd : String) : Option (P String) :=
   | "c16.tunerun" => some C02.tunerun
   | "c16.lrok" => some C02.lrok
   | "c17.eval" => some C17.eval
+  | "c17.orient" => some C17.orient
   | "c18.trace" => some C18.trace
   | "c19.gd" => some C19.gd
   | _ => none
